@@ -198,10 +198,10 @@ def gen_model(rng, size="small", feats=None):
                         break
                     ui = free.pop()
                     # members of one stop group are only made initial stops of one vehicle
-                    # (split across vehicles: see known finding C08-initial-group-split)
+                    # (split across vehicles: see known finding N6-initial-stops-and-groups)
                     mates = [w for g in groups if ui in g for w in g if w != ui and w in free]
                     # ... and a group is an initial stop list entry as a whole
-                    # (a group of which only some members are initial stops: known finding C08-initial-group-partial)
+                    # (a group of which only some members are initial stops: also N6)
                     for w in mates:
                         free.remove(w)
                         od2 = rng.choice(units[w]["orders"]) if units[w]["orders"] else units[w]["stops"]
@@ -386,10 +386,12 @@ def gen_ops(rng, m, nops, mode="unchecked"):
         maxu = max(maxu, sum(len(m["units"][ui]["stops"]) for ui in g))
     for _ in range(nops):
         r = rng.random()
+        if mode == "plan_only":
+            r = 0.0
         if mode == "checked_grow":
             r = r * 0.62 if r < 0.85 else 0.62 + (r - 0.85) / 0.15 * 0.38   # 85% plan operations: long routes
         if r < 0.62:
-            kind = "planr" if mode == "unchecked" or (mode == "checked" and rng.random() < 0.3) else "plancr"
+            kind = "planr" if mode in ("unchecked", "plan_only") or (mode == "checked" and rng.random() < 0.3) else "plancr"
             ops.append("op %s %d %d %d %s" % (kind, rng.randrange(1 << 20), rng.randrange(1 << 20), rng.randrange(1 << 20),
                                               " ".join(str(rng.randrange(1 << 20)) for _ in range(maxu))))
         elif r < 0.92:
